@@ -59,4 +59,21 @@ def prove(tier, seed):
         "nonzero_claim_obligations": {"ok": all(v > 0 for v in per.values()), "detail": per},
         "planted_bugs_all_refuted": {"ok": planted["tried"] == planted["refuted"], "detail": planted},
     }
-    return dict(records=records, functions=functions, instances=len(targets), planted=planted, selfchecks=sc)
+    base = dict(records=records, functions=functions, instances=len(targets), planted=planted, selfchecks=sc)
+    # E1-prog: the program ppt_distinguishability hands to the solver is the stated one (primal and dual), dispatch as stated
+    import importlib
+
+    from props.sdp_prove import prove_sdp
+    from vt.pyvc.termproofs import merge
+
+    mod = importlib.import_module("props.C12")
+    gen = getattr(mod, "_cases_before_frames", None) or mod.cases
+    replay = []
+    seen = {}
+    for c in gen("quick", seed):
+        k = c.get("clause", "")
+        if not k.startswith("ppt.") or k == "ppt.frame" or seen.get(k, 0) >= 6:
+            continue
+        seen[k] = seen.get(k, 0) + 1
+        replay.append(dict(c, function="ppt_distinguishability"))
+    return merge(base, prove_sdp("ppt", replay[:80], "c12p", tier))
